@@ -58,7 +58,7 @@ def replay_dict(c, extra=None):
 def field_diff(c, fields):
     return [f for f in fields if c['m'].get(f) != c['r'].get(f)]
 
-def judge(ck, c, fields, oracle, direction='both'):
+def judge(ck, c, fields, oracle, direction='both', io_pattern=False):
     """Compare model and implementation on [fields].  oracle(c) -> None if the implementation's
     behaviour satisfies the property on this case, else a description of the failure.
     direction: 'both' | 'model_ok' (only model-ok cases must agree) | 'impl_ok' (only impl-ok cases must agree)"""
@@ -66,8 +66,9 @@ def judge(ck, c, fields, oracle, direction='both'):
     if bad:
         ck.violation('oracle', bad, replay_dict(c))
         return False
-    # the sink's call pattern is part of the tie: number of write calls and of flushes, whenever both sides report them
-    if 'out' in fields:
+    # for the I/O-fault property the sink's call pattern is part of the tie (the k-th write of the model must be the k-th write
+    # of the code for the fault theorems to speak about the same experiment): number of write calls and of flushes
+    if io_pattern and 'out' in fields:
         fields = list(fields) + [f for f in ('wc', 'fl') if f not in fields and f in c['m'] and f in c['r']]
     diff = field_diff(c, fields)
     if not diff:
@@ -1210,7 +1211,7 @@ def run_C12(ck):
                 if c['rt']['r'].get('verdict') != 'ok' or c['rt']['r'].get('out') != src_data:
                     return 'encoder output through a %s sink does not decode back to the input' % ('short-writing' if c['wr'] != 'all' else 'normal')
             return None
-        if not judge(ck, p, ['verdict', 'out', 'pos'], oracle0, 'both'): continue
+        if not judge(ck, p, ['verdict', 'out', 'pos'], oracle0, 'both', io_pattern=True): continue
         good = unhx(p['r']['out'])
         rc, wc = int(p['r'].get('rc', 0)), int(p['r'].get('wc', 0))
         ks_r = range(rc + 1) if rc <= 60 else sorted(set([0, 1, 2, rc - 1, rc] + [rng.below(rc) for _ in range(40)]))
@@ -1246,7 +1247,7 @@ def run_C12(ck):
             if c['inside'] and v == 'ok': return 'an I/O call failed (%s #%s) but the operation reported success' % (c['meta']['fault'], c['meta'].get('k'))
             if v == 'ok' and out != c['good']: return 'success without the complete output in the sink'
             return None
-        judge(ck, c, ['res', 'out'] if c.get('stream') else ['verdict', 'out'], oracle, 'both')
+        judge(ck, c, ['res', 'out'] if c.get('stream') else ['verdict', 'out'], oracle, 'both', io_pattern=True)
 
 # ------------------------------------------------------------------ C13: reader fragmentation
 @prop('C13', 'inputs (well-formed, truncated, corrupted, mutated containers incl. non-zero padding with recomputed CRCs) for the three one-shot decoders x reader policies (whole, 1 byte, BufReader capacities 1..n, cyclic short-read patterns): verdict, output and consumed count must be identical across policies and equal to the model; non-trivial = policy other than whole')
